@@ -140,6 +140,20 @@ func appendedNode(a *ssa.Call) ssa.Value {
 	return v
 }
 
+// emptyDest: the destination of an append holds nothing yet (nil, make(T, 0, n), x[:0] of a local array).
+func emptyDest(v ssa.Value) bool {
+	switch x := v.(type) {
+	case *ssa.Const:
+		return x.IsNil()
+	case *ssa.ChangeType:
+		return emptyDest(x.X)
+	case *ssa.MakeSlice:
+		k, ok := x.Len.(*ssa.Const)
+		return ok && k.Value != nil && constant.Sign(k.Value) == 0
+	}
+	return false
+}
+
 // localSlice: nil, make(...), or append/phi/changetype of such.
 func localSlice(v ssa.Value, seen map[ssa.Value]bool) bool {
 	if seen[v] {
@@ -369,7 +383,41 @@ func c14Ctor(l *core.Ledger, r *rt, c *cfgCtor) {
 		k := fmt.Sprintf("%s/append%d", key, i)
 		v := appendedNode(a)
 		if v == nil {
-			l.Unknown("C14-G2", k, a.Pos(), "append of several values at once: not modelled")
+			// a whole slice appended at once: a copy if the destination is still empty;
+			// on top of nodes that are already there it is a union without a membership
+			// test, unless a sort followed by a Compact by id runs before every return
+			if emptyDest(a.Call.Args[0]) {
+				l.OK("C14-G2", k, a.Pos(), "copy of one operand into an empty slice")
+				continue
+			}
+			compacted := false
+			sx.AllInstrs(fn, func(_ sx.Node, in ssa.Instruction) {
+				cc, ok := in.(*ssa.Call)
+				if !ok {
+					return
+				}
+				name := sx.StaticCalleeName(&cc.Call)
+				if !strings.HasPrefix(name, "slices.Compact") {
+					return
+				}
+				sortedBefore := false
+				for _, srt := range sorts {
+					if sx.InstrDominates(fn, srt, sx.NodeOf(cc)) {
+						sortedBefore = true
+					}
+				}
+				all := true
+				for _, ret := range c.succ {
+					if !sx.InstrDominates(fn, cc, sx.NodeOf(ret)) {
+						all = false
+					}
+				}
+				if sortedBefore && all && sx.InstrDominates(fn, a, sx.NodeOf(cc)) {
+					compacted = true
+				}
+			})
+			l.Check(compacted, "C14-G2", k, a.Pos(), "duplicates are removed from the sorted slice before it is returned",
+				"a whole slice of nodes is appended to a slice that can already hold nodes, with no membership test and no removal of duplicates from the sorted result: a node that is in both is listed twice (size and NodeIDs disagree with the set of nodes; a quorum call on it can never collect all replies, a multicast reaches it twice)")
 			continue
 		}
 		an := sx.NodeOf(a)
